@@ -171,6 +171,9 @@ RedeclBody(k) ==
     [] k = "nested-fn-shadows-outer-fn" -> <<FnDecl("g", <<>>, WStr, <<Ret(S(<<111>>))>>),
                                              FnDecl("h", <<>>, WInt, <<FnDecl("g", <<>>, WInt, <<Ret(I(1))>>), Ret(Bin("+", CallE(V("g"), <<>>), I(1)))>>),
                                              Set("r", CallE(V("h"), <<>>))>>
+    [] k = "nested-fn-shadows-outer-fn-returned" -> <<FnDecl("g", <<>>, WStr, <<Ret(S(<<111>>))>>),
+                                             FnDecl("h", <<>>, WInt, <<FnDecl("g", <<>>, WInt, <<Ret(I(1))>>), Ret(CallE(V("g"), <<>>))>>),
+                                             Set("r", CallE(V("h"), <<>>))>>
     [] k = "recursive-fn-redeclared" -> <<FnDecl("g", <<P("n", WInt)>>, WStr, <<Ret(S(<<111>>))>>),
                                           FnDecl("g", <<P("n", WInt)>>, WInt, <<If1(Bin("<", V("n"), I(1)), Ret(I(0))), Ret(Bin("+", V("n"), CallE(V("g"), <<Bin("-", V("n"), I(1))>>)))>>),
                                           Set("r", CallE(V("g"), <<H(3)>>))>>
@@ -179,10 +182,10 @@ RedeclBody(k) ==
     [] k = "fn-to-tuple-result" -> <<F0("f", 3), FnDecl("f", <<>>, WTup(<<WInt, WInt>>), <<Ret(TupE(<<I(1), I(2)>>))>>),
                                      Destruct(<<"r", "z">>, CallE(V("f"), <<>>))>>
 RedeclWant(k) == CASE k \in {"const-to-fn", "hidden-to-fn", "fn-to-tuple-result"} -> IntV(1) [] k = "fn-to-other-signature" -> IntV(9)
-                   [] k = "nested-fn-shadows-outer-fn" -> IntV(2) [] k = "recursive-fn-redeclared" -> IntV(6) [] k = "fn-redeclared-then-captured" -> IntV(11)
+                   [] k = "nested-fn-shadows-outer-fn" -> IntV(2) [] k = "nested-fn-shadows-outer-fn-returned" -> IntV(1) [] k = "recursive-fn-redeclared" -> IntV(6) [] k = "fn-redeclared-then-captured" -> IntV(11)
                    [] k = "fn-to-other-signature-2" -> IntV(8) [] k = "fn-to-const" -> IntV(6)
 RedeclKinds == {"const-to-fn", "hidden-to-fn", "fn-to-other-signature", "fn-to-other-signature-2", "fn-to-const", "fn-to-tuple-result",
-                "nested-fn-shadows-outer-fn", "recursive-fn-redeclared", "fn-redeclared-then-captured"}
+                "nested-fn-shadows-outer-fn", "nested-fn-shadows-outer-fn-returned", "recursive-fn-redeclared", "fn-redeclared-then-captured"}
 RedeclCases ==
   {Case("redeclare-top-" \o k, RedeclBody(k) \o <<V("r")>>, RedeclWant(k)) : k \in RedeclKinds}
   \cup {Case("redeclare-block-" \o k, <<Set("out", Block(RedeclBody(k) \o <<V("r")>>)), V("out")>>, RedeclWant(k)) : k \in RedeclKinds}
